@@ -19,6 +19,11 @@ pub struct LouvainCase {
     /// threshold: 0 => None, 1 => 0.0, 2 => 1e-7, 3 => 1e-3, 4 => 0.1
     pub thr: u8,
     pub weighted: bool,
+    /// small-scope sweep: when set, `g.edges` only names the node pairs, and the check runs over
+    /// *every* assignment of the integer weights 1..=max_w to them (scaled by 1/4: modularity is
+    /// scale-invariant), with a seed derived from the assignment
+    #[serde(default)]
+    pub sweep_max_w: Option<u8>,
 }
 
 pub struct C13;
@@ -87,7 +92,7 @@ impl Prop for C13 {
     }
     fn assumptions(&self) -> Vec<String> {
         vec![
-            "termination is checked as 'within a budget about 1000 times the observed maximum'; this cannot distinguish 'for ever' from 'absurdly long', either is reported The same validity conditions are checked on the run with a user-defined node-name type (lossy Display, colliding Hash, Ord unrelated to insertion order) for every graph of <= 12 nodes and one in eight up to 64.".into(),
+            "termination is checked as 'within a budget about 1000 times the observed maximum'; this cannot distinguish 'for ever' from 'absurdly long', either is reported The same validity conditions are checked on the run with a user-defined node-name type (lossy Display, colliding Hash, Ord unrelated to insertion order) for every graph of <= 12 nodes and one in eight up to 64. Small-scope sweep (exhaustive block): every set of 1..=4 directed / 1..=5 undirected edges on 4 nodes x every assignment of integer weights 1..=6 (thorough 1..=10) x resolution in {0.5, 1, 1.5, 2}, one derived seed each (about 3.1 million louvain_partitions runs in the quick tier, 22 million in the thorough tier), same oracle without the louvain_communities comparison.".into(),
             "weighted = true is only used on graphs whose edges all carry positive weights".into(),
         ]
     }
@@ -110,13 +115,13 @@ impl Prop for C13 {
         let huge = graph_strategy(&ALL_KINDS, 41, 90, me_huge, &[0, 1], 7);
         let boundary = boundary_graph_strategy(&ALL_KINDS, me_huge, &[0, 1], 6, 255);
         (prop_oneof![500 => small, 20 => large, 10 => huge, 1 => boundary], crate::props::c16::seed_strategy(), prop_oneof![2 => Just(255u8), 2 => any::<u8>()], 0u8..5, any::<bool>())
-            .prop_map(|(g, seed, res, thr, weighted)| LouvainCase { g, seed, res, thr, weighted })
+            .prop_map(|(g, seed, res, thr, weighted)| LouvainCase { g, seed, res, thr, weighted, sweep_max_w: None })
             .boxed()
     }
     fn random_cases(&self, tier: Tier) -> u32 {
         tier.pick(150_000, 1_500_000)
     }
-    fn enumerate(&self, _tier: Tier) -> Vec<LouvainCase> {
+    fn enumerate(&self, tier: Tier) -> Vec<LouvainCase> {
         let mut v = vec![];
         for kind in [0u8, 1, 4, 5] {
             for n in 2..=3u8 {
@@ -125,14 +130,77 @@ impl Prop for C13 {
                 }
                 for g in enumerate_small(kind, n, 0) {
                     for seed in [0u64, 1] {
-                        v.push(LouvainCase { g: g.clone(), seed, res: 255, thr: 0, weighted: false });
+                        v.push(LouvainCase { g: g.clone(), seed, res: 255, thr: 0, weighted: false, sweep_max_w: None });
                     }
+                }
+            }
+        }
+        // small-scope sweep: every set of 1..=4 (directed: of the 12 ordered pairs) or 1..=5
+        // (undirected: of the 6 pairs) edges on 4 nodes x every assignment of integer weights
+        // 1..=6 (thorough: 1..=10) x resolution in {0.5, 1, 1.5, 2}. Whether a move raises or lowers
+        // modularity depends on ratios of small integers here, and Louvain's gain formula is only
+        // exercised off its comfortable path (resolution != 1, asymmetric in/out degrees) by
+        // particular ratios that random weights hit a few times in a million.
+        let max_w = tier.pick(6u8, 10);
+        for directed in [true, false] {
+            let pairs: Vec<(u8, u8)> = (0..4u8).flat_map(|a| (0..4u8).filter(move |b| if directed { *b != a } else { *b > a }).map(move |b| (a, b))).collect();
+            let max_edges = if directed { 4 } else { 5 };
+            for mask in 1u32..(1 << pairs.len()) {
+                if mask.count_ones() as usize > max_edges {
+                    continue;
+                }
+                let edges: Vec<(u8, u8, u8)> = pairs.iter().enumerate().filter(|(i, _)| mask >> i & 1 == 1).map(|(_, (a, b))| (*a, *b, 0)).collect();
+                for res in [1u8, 3, 5, 7] {
+                    v.push(LouvainCase { g: GraphCase { kind: directed as u8, n: 4, perm: 0, shape: 0, edges: edges.clone(), wmode: 1, big_n: 0, big_seed: 0 }, seed: mask as u64, res, thr: 0, weighted: true, sweep_max_w: Some(max_w) });
                 }
             }
         }
         v
     }
     fn check(&self, case: &LouvainCase) -> Outcome {
+        if let Some(max_w) = case.sweep_max_w {
+            return self.sweep(case, max_w.clamp(1, 12));
+        }
+        self.check_one(case, true)
+    }
+}
+
+impl C13 {
+    /// every weight assignment of a sweep case; stops at the first failing one
+    fn sweep(&self, case: &LouvainCase, max_w: u8) -> Outcome {
+        let mut out = Outcome::new();
+        let k = case.g.edges.len().min(6);
+        let total = (max_w as u64).pow(k as u32);
+        let mut one = case.clone();
+        one.sweep_max_w = None;
+        for idx in 0..total {
+            let mut x = idx;
+            for e in one.g.edges.iter_mut().take(k) {
+                e.2 = (x % max_w as u64) as u8; // decode_weight(1, r) = (r + 1) / 4
+                x /= max_w as u64;
+            }
+            one.seed = mix(case.seed, idx);
+            let o = self.check_one(&one, false);
+            out.api_calls += o.api_calls;
+            if std::env::var("VERIF_C13_SWEEP_COUNT").is_ok() {
+                // calibration aid: count failing assignments instead of stopping
+                if !o.failures.is_empty() {
+                    eprintln!("SWEEPFAIL res={} maxr={} edges={:?}", case.res, one.g.edges.iter().map(|e| e.2).max().unwrap_or(0), one.g.edges);
+                }
+                continue;
+            }
+            if let Some(f) = o.failures.into_iter().next() {
+                out.fail(f.sig, format!("[sweep assignment {}: edges {:?} (weight = (r+1)/4), seed {}] {}", idx, one.g.edges, one.seed, f.msg));
+                break;
+            }
+        }
+        out.class("small_scope_weight_sweep");
+        out.class(if case.g.kind & 1 == 1 { "kind_Dsn" } else { "kind_Usn" });
+        out.nontrivial = k >= 2;
+        out
+    }
+
+    fn check_one(&self, case: &LouvainCase, with_alt: bool) -> Outcome {
         let mut out = Outcome::new();
         let ng = case.g.norm();
         if ng.edges.is_empty() || ng.n < 2 {
@@ -200,6 +268,11 @@ impl Prop for C13 {
                 prev = q;
             }
         }
+        if !with_alt {
+            // sweep mode: the partitions' own conditions only
+            out.nontrivial = true;
+            return out;
+        }
         out.api_calls += 1;
         graphrs::verif::set_step_budget(Some(STEP_BUDGET));
         let r2 = guard(|| louvain::louvain_communities(&graph, weighted, res, thr, Some(case.seed)));
@@ -214,7 +287,7 @@ impl Prop for C13 {
                 }
             }
         }
-        if n <= 12 || case.seed % 8 == 0 {
+        if with_alt && (n <= 12 || case.seed % 8 == 0) {
             let r0 = res.unwrap_or(1.0);
             crate::altkey::check_louvain_name_type(&ng, weighted, res, thr, case.seed, STEP_BUDGET, &|fam| modularity_oracle(&ng, fam, weighted, r0), &mut out);
         }
